@@ -1,4 +1,7 @@
 /-
+  UPDATE (build round 2): `C04_unord_statement` is PROVED in Properties/C04Un.lean (no guard).
+  (The text below is kept as written in round 1; where it says "missing" / "not proved", see the files above.)
+
   C04 for the solvers built on the label DP (`thl`, `spfs` = base / extended
   ordered, `uspfs` = base / extended unordered): validity of everything that is
   decoded from the table, for ALL unit costs (no coherence restriction, `sloss = 0`
